@@ -131,12 +131,27 @@ def main():
         details = {}
         for pk in pkgs:
             good = False
-            for attempt in range(2):
-                rct, outt = sh("go test -vet=off -count=1 -timeout 20m %s" % pk, cwd=wt)
-                fails = [l for l in outt.splitlines() if l.startswith("--- FAIL") and "TestSyslogFilter" not in l]
-                if not fails and ("ok " in outt or "TestSyslogFilter" in outt):
-                    good = True
-                    break
+            rct, outt = sh("go test -vet=off -count=1 -timeout 20m %s" % pk, cwd=wt)
+            fails = [l for l in outt.splitlines() if l.startswith("--- FAIL") and "TestSyslogFilter" not in l]
+            if not fails and ("ok " in outt or "TestSyslogFilter" in outt):
+                good = True
+            elif fails:
+                # real-time tests on shared loopback addresses flake under load: a test that
+                # failed in the full run must pass on its own (up to 4 tries each)
+                names = sorted({l.split()[2] for l in fails})
+                still = []
+                for nm in names:
+                    okn = False
+                    for attempt in range(4):
+                        r1, o1 = sh("go test -vet=off -count=1 -timeout 10m -run '^%s$' %s" % (nm, pk), cwd=wt)
+                        if r1 == 0:
+                            okn = True
+                            break
+                    if not okn:
+                        still.append(nm)
+                good = not still
+                fails = ["still failing alone: " + ",".join(still)] if still else []
+                details[pk + " (flaky under load, passed alone)"] = ",".join(names)
             details[pk] = "pass" if good else "FAIL: " + "; ".join(fails[:5])
             ok_tests = ok_tests and good
         meta["existing_tests_with_patch"] = details
